@@ -100,6 +100,9 @@ PROCESS_STATE_CALLS = {'setrecursionlimit', 'filterwarnings', 'simplefilter',
 DYNAMIC_CALLS = {'exec', 'eval', '__import__', 'import_module', 'setattr',
                  'delattr', 'globals', 'vars', 'locals', 'compile_command',
                  'execfile', 'load_module', 'exec_module'}
+HARMLESS_DECORATORS = {'staticmethod', 'classmethod', 'property', 'wraps',
+                       'abstractmethod', 'setter', 'getter', 'deleter',
+                       'total_ordering', 'dataclass', 'unique', 'overload'}
 CACHE_DECORATORS = {'lru_cache', 'cache', 'cached_property', 'memoize',
                     'memoized', 'singledispatch'}
 
@@ -657,6 +660,12 @@ class FileAudit:
                 if dname in CACHE_DECORATORS:
                     self.emit(qual, '@' + text_of(deco),
                               'CBinding ScModule VMutable', live)
+                elif dname not in HARMLESS_DECORATORS:
+                    # the name is bound to whatever the decorator returns: an
+                    # object the translator knows nothing about (a memoising
+                    # closure, for instance)
+                    self.emit(qual, '@' + text_of(deco),
+                              'CBinding ScModule VUnknown', live)
                 self.visit_expr(deco, info, func, live)
             args = stmt.args
             for default in list(args.defaults) + [d for d in args.kw_defaults
